@@ -150,7 +150,7 @@ func (p *parser) value() (V, error) {
 }
 
 func (v V) IsErr() bool {
-	return v.Kind == 2 && len(v.L) == 2 && v.L[0].Kind == 0 && v.L[0].Z.Sign() < 0
+	return v.Kind == 2 && len(v.L) == 2 && v.L[0].Kind == 1 && string(v.L[0].B) == "!err"
 }
 
 func (v V) Equal(w V) bool {
